@@ -30,6 +30,9 @@ CLAIMS = {
  "C03": dict(cat="proof", tech="machine-checked proof in Coq (compositional soundness theorem; per-opcode enclosure lemmas over extended reals in progress) + bit-exact correspondence of the interval model + enclosure oracle on interpreter and JIT",
    text="Kernel-checked: any relation preserved by every opcode under a guard on the point values is preserved by every tape (all value types/semantics) — the 'soundness through composition' that the suite never tests. types/interval.rs is modelled once over an abstract float structure; its f32 instance equals the interpreter's interval results bit-for-bit (up to the sign of zero bounds) on DAGs with every node exported, including through Transformable; the enclosure oracle runs on interpreter and JIT per node and per sample point with local obligations.",
    ref="DESIGN.md §5 C03", note="Known findings: NaN operand hidden behind a non-NaN interval (D9), hash opcodes on signed zero. Libm monotonicity is assumed, not proved."),
+ "C02": dict(cat="proof", tech="machine-checked proof in Coq of the slice driver (all lengths, in-bounds) + differential execution JIT vs interpreter with guard pages in child processes",
+   text="Kernel-checked: JitBulkEval::eval's chunking returns exactly n results with result i = kernel(lane i) for every length n and SIMD width S>0, and all its reads/writes are inside the caller's slices / output rows. The hand-written x86_64 sequences are NOT proved: they are compared with the interpreter (which is tied to the Coq model by C01) on every opcode and operand form, on special values, every slice length 0..35, with caller slices adjacent to inaccessible pages.",
+   ref="DESIGN.md §5 C02", note="Partial: instruction sequences, register spills and the stack frame are covered by correspondence only; aarch64 backend not executable here."),
 }
 
 def main():
